@@ -2,6 +2,7 @@ import GambitV.Model.Kmers
 import GambitV.Model.Find
 import GambitV.Model.Taxonomy
 import GambitV.Model.Cli
+import GambitV.Model.Jaccard
 
 /-!
 Run-time library of the Python → Lean translator (`harness/py2lean.py`).  Core Lean only.
@@ -175,6 +176,30 @@ structure KSpec where
   k : Int
   pre : List UInt8
   deriving Repr, DecidableEq, Inhabited
+
+/-- a NumPy integer type: kind `'u'` / `'i'` (anything else = not an integer type), item size in bytes, native byte order -/
+structure DType where
+  kind : Char
+  size : Nat
+  native : Bool
+  deriving Repr, DecidableEq, Inhabited
+
+/-- the types the compiled kernels are instantiated for -/
+def DType.kernelOk (d : DType) : Bool := d.kind == 'u' && d.native && (d.size == 2 || d.size == 4 || d.size == 8)
+
+/-- a one-dimensional integer array: its type and its values (as Python integers) -/
+structure Arr where
+  dtype : DType
+  vals : List Int
+  deriving Repr, DecidableEq, Inhabited
+
+/-- the values as the kernels read them (non-negative once the array has an unsigned type) -/
+def Arr.natVals (a : Arr) : List Nat := a.vals.map Int.toNat
+
+/-- `arr.view(dt)` for a type of the same item size: the same bytes read as the other type (two's complement) -/
+def Arr.view (a : Arr) (dt : DType) : Arr :=
+  { dtype := dt,
+    vals := if dt.kind == 'u' then a.vals.map (fun v => (GambitV.asUnsigned a.dtype.size v : Int)) else a.vals }
 
 /-- `gambit.classify.GenomeMatch` (reference genomes are indices into the list of genome taxa) -/
 structure GenomeMatch where
